@@ -400,19 +400,52 @@ fn gen_vehicle_rows(r: &mut Rng, veh: &Vehicle, nedges: usize, nrows: usize) -> 
         .collect()
 }
 const CLASS_NAMES: [&str; 6] = ["motorway", "trunk", "primary", "secondary", "residential", "track"];
+/// road class ids from the full u8 range, built around pairs that differ by a multiple of 64 (c, c+64, c+128, c+192;
+/// in particular 0/64/128/192 and 63/127/191/255): a set representation narrower than 256 values confuses them
+fn wide_class_universe(r: &mut Rng) -> Vec<u8> {
+    let base = match r.below(4) {
+        0 => 0u8,
+        1 => 63,
+        _ => r.below(64) as u8,
+    };
+    let mut u: Vec<u8> = vec![base, base + 64, base + 128, base + 192];
+    // a second, unrelated residue and a few arbitrary ids
+    let other = r.below(64) as u8;
+    u.push(other);
+    u.push(other.wrapping_add(64 * (1 + r.below(3) as u8)));
+    for _ in 0..r.below(3) {
+        u.push(r.below(256) as u8);
+    }
+    u.sort();
+    u.dedup();
+    u
+}
+fn class_name(c: u8) -> String {
+    if (c as usize) < CLASS_NAMES.len() { CLASS_NAMES[c as usize].to_string() } else { format!("class_{}", c) }
+}
 fn gen_road_class(r: &mut Rng, nedges: usize) -> (Cfg, Value) {
     // (configuration, the "road_classes" value of a matching query, Null = absent)
-    let nclasses = 2 + r.below(5) as u8;
-    let lookup: Vec<u8> = (0..nedges).map(|_| r.below(nclasses as u64) as u8).collect();
+    let wide = r.chance(1, 2);
+    let universe: Vec<u8> = if wide { wide_class_universe(r) } else { (0..2 + r.below(5) as u8).collect() };
+    let lookup: Vec<u8> = (0..nedges).map(|_| *r.pick(&universe)).collect();
     let with_mapping = r.chance(1, 2);
-    let mapping: Vec<(String, u8)> =
-        if with_mapping { (0..nclasses).map(|c| (CLASS_NAMES[c as usize].to_string(), c)).collect() } else { vec![] };
-    let chosen: Vec<u8> = (0..nclasses + 1).filter(|_| r.chance(1, 2)).collect();
+    let mapping: Vec<(String, u8)> = if with_mapping { universe.iter().map(|c| (class_name(*c), *c)).collect() } else { vec![] };
+    // allowed set: each class independently; for wide universes usually exactly one member of the aliasing family
+    let mut chosen: Vec<u8> = universe.iter().copied().filter(|_| r.chance(1, 2)).collect();
+    if wide && r.chance(2, 3) {
+        let keep = universe[r.below(4.min(universe.len() as u64)) as usize];
+        let fam: Vec<u8> = universe.iter().copied().filter(|c| c % 64 == keep % 64).collect();
+        chosen.retain(|c| !fam.contains(c));
+        chosen.push(keep);
+    }
+    if !wide && r.chance(1, 2) {
+        chosen.push(universe.len() as u8); // a class no edge has
+    }
     let q = match r.below(10) {
         0 => Value::Null,
         1..=4 => json!(chosen),
-        5..=7 if with_mapping => json!(chosen.iter().filter(|c| **c < nclasses).map(|c| CLASS_NAMES[*c as usize]).collect::<Vec<_>>()),
-        8 if with_mapping => json!(["motorway", "no_such_class"]),
+        5..=7 if with_mapping => json!(chosen.iter().filter(|c| universe.contains(c)).map(|c| class_name(*c)).collect::<Vec<_>>()),
+        8 if with_mapping => json!([class_name(universe[0]), "no_such_class"]),
         9 => json!([0, "trunk"]),
         _ => json!(chosen),
     };
@@ -582,6 +615,31 @@ fn boundary_fcases() -> Vec<FCase> {
             v.push(FCase { family: "road_class_query".into(), nested: false, cfg: Cfg::RoadClass { lookup: lookup.clone(), mapping: m.clone() }, query: q, cut: None, nedges: 8, nprev: 1 });
         }
     }
+    // class ids that differ by a multiple of 64 (and of 8, 16, 32): allowed sets with exactly one member of each family,
+    // numeric and through the mapping
+    let alias_lookup: Vec<u8> = vec![7, 71, 135, 199, 0, 64, 128, 192, 63, 127, 191, 255, 7, 71, 39, 15, 23];
+    let alias_mapping: Vec<(String, u8)> = {
+        let mut u = alias_lookup.clone();
+        u.sort();
+        u.dedup();
+        u.iter().map(|c| (format!("class_{}", c), *c)).collect()
+    };
+    for m in [vec![], alias_mapping.clone()] {
+        let mut sets: Vec<Vec<u8>> = alias_mapping.iter().map(|(_, c)| vec![*c]).collect();
+        sets.extend([vec![7, 64, 127], vec![71, 0, 255], vec![135, 192, 63], vec![199, 128, 191], vec![7, 71], vec![0, 64, 128, 192], vec![1, 65, 200]]);
+        for set in sets {
+            v.push(FCase { family: "road_class_aliasing".into(), nested: false, cfg: Cfg::RoadClass { lookup: alias_lookup.clone(), mapping: m.clone() },
+                           query: json!({"road_classes": set}), cut: None, nedges: alias_lookup.len(), nprev: 0 });
+            if !m.is_empty() && set.iter().all(|c| alias_lookup.contains(c)) {
+                v.push(FCase { family: "road_class_aliasing".into(), nested: false, cfg: Cfg::RoadClass { lookup: alias_lookup.clone(), mapping: m.clone() },
+                               query: json!({"road_classes": set.iter().map(|c| format!("class_{}", c)).collect::<Vec<_>>()}), cut: None, nedges: alias_lookup.len(), nprev: 0 });
+            }
+        }
+    }
+    // inside a combined model and under an edge cut
+    v.push(FCase { family: "road_class_aliasing".into(), nested: false,
+                   cfg: Cfg::Combined(vec![Cfg::Turn { pairs: vec![(0, 1)] }, Cfg::RoadClass { lookup: alias_lookup.clone(), mapping: alias_mapping.clone() }]),
+                   query: json!({"road_classes": ["class_71", "class_0"]}), cut: Some(vec![4]), nedges: alias_lookup.len(), nprev: 1 });
     // the class table is shorter than the edge list
     v.push(FCase { family: "road_class_table_short".into(), nested: false, cfg: Cfg::RoadClass { lookup: vec![0, 1, 0], mapping: vec![] }, query: json!({"road_classes": [0]}), cut: None, nedges: 5, nprev: 0 });
     v.push(FCase { family: "road_class_table_short".into(), nested: false, cfg: Cfg::RoadClass { lookup: vec![0, 1, 0], mapping: vec![] }, query: json!({}), cut: None, nedges: 5, nprev: 0 });
@@ -892,15 +950,17 @@ fn gen_real_frontier(r: &mut Rng, w: &World) -> (Cfg, bool, Value, Option<Vec<us
     let want_veh = r.chance(1, 2);
     let want_turn = r.chance(1, 2);
     if want_rc {
-        let nclasses = 2 + r.below(4) as u8;
-        // class 0 is common, the others rarer; the query allows a subset that contains class 0 most of the time
-        let lookup: Vec<u8> = (0..m).map(|_| if r.chance(2, 3) { 0 } else { r.below(nclasses as u64) as u8 }).collect();
+        // the common class is `universe[0]`, the others rarer; the query allows a subset that contains the common class most
+        // of the time.  Half of the tables use ids from the full u8 range with members that differ by multiples of 64.
+        let universe: Vec<u8> = if r.chance(1, 2) { wide_class_universe(r) } else { (0..2 + r.below(4) as u8).collect() };
+        let common = universe[0];
+        let lookup: Vec<u8> = (0..m).map(|_| if r.chance(2, 3) { common } else { *r.pick(&universe) }).collect();
         let with_mapping = r.chance(1, 2);
-        let mapping: Vec<(String, u8)> = if with_mapping { (0..nclasses).map(|c| (CLASS_NAMES[c as usize].to_string(), c)).collect() } else { vec![] };
-        let allowed: Vec<u8> = (0..nclasses).filter(|c| if *c == 0 { r.chance(9, 10) } else { r.chance(1, 2) }).collect();
+        let mapping: Vec<(String, u8)> = if with_mapping { universe.iter().map(|c| (class_name(*c), *c)).collect() } else { vec![] };
+        let allowed: Vec<u8> = universe.iter().copied().filter(|c| if *c == common { r.chance(9, 10) } else { r.chance(1, 3) }).collect();
         if !r.chance(1, 10) {
             if with_mapping && r.chance(1, 2) {
-                query.insert("road_classes".into(), json!(allowed.iter().map(|c| CLASS_NAMES[*c as usize]).collect::<Vec<_>>()));
+                query.insert("road_classes".into(), json!(allowed.iter().map(|c| class_name(*c)).collect::<Vec<_>>()));
             } else {
                 query.insert("road_classes".into(), json!(allowed));
             }
@@ -982,9 +1042,23 @@ fn finding_witnesses() -> Vec<(&'static str, SCase)> {
     ]
 }
 
+/// regression witnesses (pass on the unchanged tree): shrunk inputs of seeded changes the check once missed
+fn regression_witnesses() -> Vec<(&'static str, SCase)> {
+    // seeded/C04-7: e0 0>1 (class 7), e1 1>3 (class 71), e2 1>2 (class 7, 5.0), e3 2>3 (class 7, 5.0)
+    let w = World::new(4, vec![(0, 1), (1, 3), (1, 2), (2, 3)], vec![1.0, 1.0, 5.0, 5.0]);
+    let q = Query { alg: Alg::Dijkstra, dir: Dir::Forward, orient: Orient::Vertex, source: 0, target: Some(3), query_wf: None };
+    let rc = Cfg::RoadClass { lookup: vec![7, 71, 7, 7], mapping: vec![("seven".into(), 7), ("seventy_one".into(), 71)] };
+    vec![
+        ("seed_C04-7_class_7_not_71", SCase { family: "corpus_class_alias".into(), w: w.clone(), q: q.clone(), nested: false, cfg: rc.clone(),
+                                             query: json!({"road_classes": [7]}), cut: None, ksp: None, yens: false }),
+        ("seed_C04-7_class_71_not_7", SCase { family: "corpus_class_alias".into(), w: w.clone(), q: Query { target: None, ..q.clone() }, nested: false, cfg: rc.clone(),
+                                             query: json!({"road_classes": ["seventy_one"]}), cut: None, ksp: None, yens: false }),
+    ]
+}
+
 fn write_corpus(a: &Args) {
     std::fs::create_dir_all(&a.out).unwrap();
-    for (name, sc) in finding_witnesses() {
+    for (name, sc) in finding_witnesses().into_iter().chain(regression_witnesses()) {
         let mut desc = scase_to_json(&sc);
         desc["id"] = json!(0);
         let v = json!({"stream": "search", "finding": name, "case": desc});
@@ -1089,6 +1163,7 @@ fn random_yens_case(r: &mut Rng) -> SCase {
 
 fn boundary_scases() -> Vec<SCase> {
     let mut v: Vec<SCase> = finding_witnesses().into_iter().map(|(_, sc)| sc).collect();
+    v.extend(regression_witnesses().into_iter().map(|(_, sc)| sc));
     v.extend(yens_shared_verdict_cases());
     // the frontier_forbids_* shapes of searchkit with the real models
     let base = World::new(4, vec![(0, 1), (1, 2), (2, 3), (0, 3), (3, 2), (2, 1), (1, 0), (3, 0)], vec![1.0, 1.0, 1.0, 9.0, 1.0, 1.0, 1.0, 9.0]);
